@@ -2,8 +2,8 @@
 
 CFG = {
     'sub': 'c14',
-    'gens': [],
-    'coq_files': ['Bytes.v', 'Pack.v', 'Model_C13.v', 'Model_C14.v', 'Proofs_C14.v', 'Props_C14.v', 'Run_C14.v'],
+    'gens': [('gen_startup_order.py', 'StartupOrder.v')],
+    'coq_files': ['Bytes.v', 'Pack.v', 'Model_C13.v', 'Model_C14.v', 'Proofs_C14.v', 'StartupOrder.v', 'Props_C14.v', 'Run_C14.v'],
     'props': 'Props_C14.v', 'run': 'Run_C14.v',
     'harness_timeout': 600,
     'widen_runs': 2,
@@ -78,3 +78,4 @@ CFG['rule'] = CFG['rule'] + ' ' + 'Additions: every second user id extends the p
 
 CFG['rule'] = CFG['rule'] + ' ' + 'One scenario in three starts with equal copies of some records that have to move already present on their new owner (a sender that died between the confirmation and its local delete).'
 CFG['rule'] = CFG['rule'] + ' ' + 'Node data directories contain pattern characters ([ ] * ? and a blank); node root and shard-manager root are distinct; every node lists the servers starting with itself; the harness picks its loopback ports from a window chosen by process id.'
+CFG['rule'] = CFG['rule'] + ' ' + 'Obligation StartupOrder (gen_startup_order.py): main.go calls NewNode, RegisterMetrics, Serve, Sync in this order (theorem c14_node_listens_before_it_sends); the harness starts its nodes in the same order.'
